@@ -1526,7 +1526,7 @@ package query
 //@   modifies nothing
 
 //@ func cacheViewFromFile
-//@   property C20
+//@   property C20 C13
 //@   requires scope != nil && scope.Tx != nil
 //@   assert after call query.loadViewFromFile: [reload-only-when-uncached-or-upgrading-a-read-copy] !isCached || (forUpdate && !fileInfo.ForUpdate)
 //@   assert after call (*file.Container).CreateHandlerForUpdate: [handler-only-when-uncached-or-upgrading] !isCached || (forUpdate && !fileInfo.ForUpdate)
